@@ -37,7 +37,8 @@ def main():
                     out["messages"].append({"state": msg.state.name, "message": msg.message, "line": msg.line,
                                             "traceback": (msg.traceback or "")[-3000:]})
         except BaseException as e:  # noqa - report and continue with the next job
-            out["error"] = type(e).__name__ + ": " + str(e) + "\n" + traceback.format_exc()[-3000:]
+            tb = traceback.format_exc()
+            out["error"] = type(e).__name__ + ": " + str(e) + "\n" + (tb if len(tb) < 5000 else tb[:2500] + "\n ...\n" + tb[-2500:])
             if isinstance(e, KeyboardInterrupt):
                 raise
         out["paths"] = ctx.STATS["paths"]; out["nontrivial"] = ctx.STATS["nontrivial"]
